@@ -410,7 +410,9 @@ pub enum StepKind {
     DiskFault { k: u64, full: bool },
     /// `aim`: 0 = fetch now; 1..=3 = first wait until the second before / of / after the next
     /// lease expiry in the store (boundary instants of the C20 gauges)
-    Http { path: String, via: HttpVia, from: String, #[serde(default)] aim: u8 },
+    /// `read_fault`: this many of the reads erbium makes from the lease database while it
+    /// serves the request fail with an I/O error
+    Http { path: String, via: HttpVia, from: String, #[serde(default)] aim: u8, #[serde(default)] read_fault: u32 },
     /// an API request from an arbitrary source, judged against the ACL model;
     /// `from`/`to` are socket addresses, or unix:<path>, unix:@<abstract>, unix:unnamed
     AclHttp { path: String, from: String, to: String },
@@ -1116,6 +1118,10 @@ pub fn generate(seed: u64, opts: &GenOpts) -> PlanA {
         } else if pick(pf.w_http) {
             StepKind::Http {
                 aim: *r.pick(&[0u8, 0, 1, 2, 2, 2, 3]),
+                read_fault: {
+                    let mut k = Rng::new(t ^ seed, "http-read-fault");
+                    if pf.w_diskfault == 0 && shape != "listing" || !k.chance(0.12) { 0 } else { k.range(1, 3) as u32 }
+                },
                 path: r.pick(&["/api/v1/leases.json", "/api/v1/leases.json", "/metrics", "/metrics"]).to_string(),
                 via: match r.below(8) {
                     0 => HttpVia::Tcp6,
